@@ -161,3 +161,91 @@ def readse_spec(C, self, pos):
     if sym.truth(sym.eq(c % 2, 1)):
         return m, p
     return -m, p
+
+
+# ---- interleaved exp-Golomb decoders ----------------------------------------------------------------------------------------
+# codeword at pos: k pairs (0, b_j), then a 1.  codenum = 2^k + value(b_0 .. b_{k-1}); uie = codenum - 1.
+def _even_view(V, pos):
+    """E[x] = V[pos + 2x] for the even offsets that exist"""
+    m = sym.smax(sym.floordiv_mod(V.n - pos + 1, 2)[0], 0)
+    return BA(m, lambda x: V.bit(pos + 2 * x))
+
+
+def _odd_array(V, pos):
+    """the (unguarded) array x -> V[pos + 2x + 1]: the same term wherever it is built from the same V and pos, so that the value
+    of its first j elements, uval(A, j), is compared by congruence"""
+    x = z3.Int('x!odd')
+    return z3.Lambda([x], sym._b(V.bit(SInt(sym._int_t(pos) + 2 * x + 1))))
+
+
+def _prefix_value(V, pos, j):
+    """value(b_0 .. b_{j-1}) with b_x = V[pos + 2x + 1]; the two facts assumed about uval are its recursive *definition*:
+    uval(a, 0) = 0 and uval(a, n + 1) = 2 uval(a, n) + a[n]"""
+    if isinstance(j, int) and isinstance(pos, int) and isinstance(V.n, int) and all(isinstance(V.bit(pos + 2 * x + 1), bool) for x in range(j)):
+        v = 0
+        for x in range(j):
+            v = 2 * v + int(V.bit(pos + 2 * x + 1))
+        return v
+    A = _odd_array(V, pos)
+    jt = sym._int_t(j)
+    c = sym.ctx()
+    c.assume(ints.uval(A, z3.IntVal(0)) == 0)
+    c.assume(z3.Implies(jt >= 0, ints.uval(A, jt + 1) == 2 * ints.uval(A, jt) + z3.If(z3.Select(A, jt), 1, 0)))
+    return SInt(ints.uval(A, jt))
+
+
+def readuie_core(C, V, pos):
+    V = _canonical_view(V)
+    pos = sym.ctx_simplify_int(pos) if sym.have_ctx() else pos
+    E = _even_view(V, pos)
+    k = _zero_run(C, E, 0)
+    if sym.truth(sym.eq(k, E.n)):
+        C.throw('ReadError')                       # ran off the end before the terminating 1 (or inside the last pair)
+    if sym.truth(sym.eq(k, 0)):
+        return 0, pos + 1
+    return sym.pow2(k) + _prefix_value(V, pos, k) - 1, pos + 2 * k + 1
+
+
+@contract('bits.Bits._readuie', shapes=_pos_shapes(), props={'C10', 'C06'}, kind='public',
+          note="_readuie(pos): k pairs (0, b) then a 1 give 2^k + value(b...) - 1 and pos + 2k + 1; ReadError when the bits run out first; "
+               "refused in lsb0 mode")
+def readuie_spec(C, self, pos):
+    C.requires(land(pos >= 0, pos <= bits(self).n), '0 <= pos <= len')
+    if C.lsb0:
+        C.throw('ReadError')
+    return readuie_core(C, bits(self), pos)
+
+
+@loop_invariant('bits.Bits._readuie', 1,
+                note="pos = pos0 + 2j <= len, the bits at the even offsets below j are 0, and codenum = 2^j + value of the j odd-offset bits read so far")
+def _readuie_inv(L):
+    self, pos, code = L.v('self'), L.v('pos'), L.v('codenum')
+    old = L.old('pos')
+    V = bits(self)
+    d = pos - old
+    j, r = sym.floordiv_mod(d, 2)
+    x = z3.Int('x!inv')
+    body = lambda t: z3.Implies(z3.And(t >= 0, t < sym._int_t(j)), z3.Not(sym._b(V.bit(SInt(sym._int_t(old) + 2 * t)))))
+    base = land(pos >= old, pos <= V.n, sym.eq(r, 0), sym.eq(code, sym.pow2(j) + _prefix_value(V, old, j)))
+    if L.assuming:
+        sym.assume_forall(body)
+        sym.note_index(j)
+        return base
+    return land(base, sym.mk_bool(z3.ForAll([x], body(x))))
+
+
+@contract('bits.Bits._readsie', shapes=_pos_shapes(), props={'C10', 'C06'}, kind='public',
+          note="_readsie(pos): the uie codeword, followed for a non-zero value by a sign bit (1 = negative); ReadError when the sign bit is missing")
+def readsie_spec(C, self, pos):
+    C.requires(land(pos >= 0, pos <= bits(self).n), '0 <= pos <= len')
+    if C.lsb0:
+        C.throw('ReadError')
+    V = bits(self)
+    c, p = readuie_core(C, V, pos)
+    if sym.truth(sym.eq(c, 0)):
+        return 0, p
+    if sym.truth(p >= V.n):
+        C.throw('ReadError')
+    if sym.truth(V.bit(p)):
+        return -c, p + 1
+    return c, p + 1
